@@ -54,6 +54,7 @@ BmaJumps == {NJ, J(END, NoJump, NoJump), J("g", NoJump, NoJump)}
 BmaNodes == Nodes({<<"f", "">>, <<"g", "">>}, {"", "n1"}, BmaJumps) \cup Ends({""})
 BmaSide  == Nodes({<<"f", "">>, <<"g", "">>}, {"", "n1"}, {NJ, J("g", NoJump, NoJump), J(NoJump, END, NoJump)}) \cup Ends({""})
 
+(* quick tier *)
 BmaNodesQ == Nodes({<<"f", "">>, <<"g", "">>}, {""}, BmaJumps) \cup Nodes({<<"f", "">>}, {"n1"}, BmaJumps) \cup Ends({""})
 BmaSideQ == {N("f", "", "", NJ), N("g", "", "n1", J(END, NoJump, NoJump)), N(END, "", "", NJ)}
 
